@@ -444,6 +444,7 @@ type Clause struct {
 	File  string
 	Line  int
 	Props []string // property ids this clause is claimed for (empty: all of the function's)
+	Internal bool  // `proves`: an obligation of the function's own proof (may mention its locals), not exported to callers
 }
 
 type GhostSet struct {
@@ -550,7 +551,7 @@ type SpecFile struct {
 var topKeywords = map[string]bool{"global": true, "spec": true, "ghost": true, "func": true, "lemma": true, "iface": true, "guarded": true, "level": true, "extern": true}
 var clauseKeywords = map[string]bool{"safe": true, "inline": true, "pure": true, "props": true, "requires": true, "ensures": true,
 	"modifies": true, "invariant": true, "loopmodifies": true, "assume": true, "assert": true, "trusted": true, "reads": true,
-	"fresh": true, "ghost": true, "why": true, "nooverflow": true, "witness": true, "uses": true, "ematch": true, "unreachable": true, "dyncall": true}
+	"fresh": true, "ghost": true, "why": true, "nooverflow": true, "witness": true, "uses": true, "ematch": true, "unreachable": true, "dyncall": true, "proves": true}
 
 // parseSpecText parses the //@ lines of a contract file.  pkg is the
 // package path the file belongs to ("" for the trusted table).
@@ -804,7 +805,7 @@ func parseSpecText(pkg, file, text string) (*SpecFile, error) {
 			cur.Witness[strings.TrimSpace(s.rest[:i])] = w
 		case "props":
 			cur.Props = strings.Fields(s.rest)
-		case "requires", "ensures", "assume":
+		case "requires", "ensures", "assume", "proves":
 			c, err := mkClause(s.n, s.rest)
 			if err != nil {
 				return nil, err
@@ -812,6 +813,9 @@ func parseSpecText(pkg, file, text string) (*SpecFile, error) {
 			switch s.kw {
 			case "requires":
 				cur.Requires = append(cur.Requires, c)
+			case "proves":
+				c.Internal = true
+				cur.Ensures = append(cur.Ensures, c)
 			case "ensures":
 				cur.Ensures = append(cur.Ensures, c)
 			default:
